@@ -86,7 +86,8 @@ fn strip_comment(line: String) -> String {
 }
 
 fn strip_whitespaces(line: String) -> String {
-    let without_whitespaces = line.replace(SYMBOL.whitespace, SYMBOL.empty_string);
+    // whitespace in a config file is either space or tab
+    let without_whitespaces = line.replace(SYMBOL.whitespace, SYMBOL.empty_string).replace(SYMBOL.control_char_string_terminator, SYMBOL.empty_string);
 
     without_whitespaces
 }
